@@ -137,12 +137,13 @@ def run_history(job):
             import re
             m = re.search(rb"Bidirectional plan: (\d+) action", p.stderr)
             names = sorted(set(a0) | set(b0) | set(a1) | set(b1) | set(e0) | set(e1) | set(last))
+            stg = any(n.endswith(".copia-tmp") for n in names)
             names = [n for n in names if not n.endswith(".copia-tmp")]
             idx = {n: i for i, n in enumerate(names)}
             fam = [[j + 1 for j, m2 in enumerate(names) if m2 == n or m2.startswith(n + ".conflict-")] for n in names]
             arr = lambda t: [t.get(n, 0) for n in names]
             earr = lambda e: [hexes.get(e[n], -2) if n in e else 0 for n in names]
-            recs.append({"seed": seed, "step": step, "names": names, "fam": fam, "A": arr(a0), "B": arr(b0), "E": earr(e0), "tr": tr0,
+            recs.append({"seed": seed, "step": step, "names": names, "fam": fam, "A": arr(a0), "B": arr(b0), "E": earr(e0), "tr": tr0, "stg": stg,
                          "last": arr(last), "A2": arr(a1), "B2": arr(b1), "E2": earr(e1), "tr2": tr1, "exit": p.returncode,
                          "completed": completed, "nplan": int(m.group(1)) if m else -1, "stderr": p.stderr.decode("utf8", "replace")[-160:] if not completed else ""})
             if completed:
@@ -180,7 +181,7 @@ def pair_identity(job):
     fam = [[j + 1 for j, m2 in enumerate(names) if m2 == n or m2.startswith(n + ".conflict-")] for n in names]
     arr = lambda t: [t.get(n, 0) for n in names]
     completed = p2.returncode == 0 or (p2.returncode == 1 and b"had conflicts" in p2.stderr)
-    return [{"seed": f"pair-identity-{k}", "step": 0, "names": names, "fam": fam, "A": arr(a0), "B": arr(b0), "E": [0] * len(names), "tr": False,
+    return [{"seed": f"pair-identity-{k}", "step": 0, "names": names, "fam": fam, "A": arr(a0), "B": arr(b0), "E": [0] * len(names), "tr": False, "stg": False,
              "last": [0] * len(names), "A2": arr(a1), "B2": arr(b1), "E2": arr(a1) if completed else [0] * len(names), "tr2": completed, "exit": p2.returncode,
              "completed": completed, "nplan": -1, "stderr": (repr(n1) + " vs " + repr(n2) + " banner=" + str(b"SAFE no-base" in p2.stderr))}]
 
